@@ -61,6 +61,46 @@ def make_query(from_items, cond, select_alias, preds=()):
     return q
 
 
+def paren_variants(f):
+    """the same formula with redundant parentheses around operands / the whole"""
+    out = [f, ("paren", f)]
+    if f[0] in ("and", "or"):
+        a, b = f[1], f[2]
+        pa = a if a[0] == "paren" else ("paren", a)
+        pb = b if b[0] == "paren" else ("paren", b)
+        out += [(f[0], pa, pb), (f[0], pa, b), (f[0], a, pb)]
+    return out
+
+
+def predicate_cases(rng, proj, kind, alias="x", limit=None):
+    """queries that call a declared predicate: body shapes x call contexts (the C01/C13 quantifier
+    'calls to declared predicates in any boolean context')"""
+    atoms = []
+    tries = 0
+    while len(atoms) < 3 and tries < 60:
+        tries += 1
+        a = QG.accessor_atom(rng, "m", kind, proj.values)
+        if QG.canonical(a) not in [QG.canonical(b) for b in atoms]:
+            atoms.append(a)
+    if len(atoms) < 3:
+        return []
+    bodies = []
+    for f in formulas(atoms[:2], 1):
+        bodies += paren_variants(f)
+    outer = E.rename(atoms[2], {"m": alias})
+    call = ("call", "p", (alias,))
+    ctxs = [call, QG.mk("not", call), QG.mk("and", QG.mk("not", call), outer), QG.mk("or", QG.mk("not", call), outer),
+            QG.mk("and", call, outer), QG.mk("or", outer, call), QG.mk("not", QG.mk("and", call, outer)), QG.mk("not", QG.mk("or", outer, call))]
+    cases = []
+    for b in bodies:
+        for c in ctxs:
+            q = make_query([(kind, alias)], c, alias, preds=[QG.Pred("p", [(kind, "m")], b)])
+            cases.append(q)
+    if limit and len(cases) > limit:
+        cases = rng.sample(cases, limit)
+    return cases
+
+
 def judge(run, pid, proj, text, q, res, stats, mism):
     """compare real / model / oracle for one case; report according to the property `pid`"""
     stats["outcome:" + str(res.get("real_outcome"))] += 1
@@ -143,6 +183,12 @@ def sweep(run, pid):
                 run.count(("shape", pi, QG.canonical(f)))
                 judge(run, pid, proj, text, q, res, stats, mism)
             run.sample(dict(query=QG.plain(make_query([(k1, a1)], shapes[-1], a1)), kind="exhaustive-shape", project_nodes=len(proj.nodes)))
+            # --- predicate calls: body shapes x call contexts
+            for q in predicate_cases(rng, proj, k1, limit=(120 if quick else None)):
+                text = QG.plain(q)
+                res = E.engine_case(proj, d, text, q)
+                run.count(("pred-shape", pi, text))
+                judge(run, pid, proj, text, q, res, stats, mism)
             # --- random queries, one and two entities, predicates
             for i in range(nrand // nproj):
                 q = QG.random_query(rng, kinds=kinds, values=proj.values, depth=3 if quick else 4)
